@@ -172,6 +172,11 @@ func (sys *system) runOp(name string, life bool, f func()) (bool, error) {
 	if sys.closed {
 		return false, fail("C11:traffic-call-blocks-after-close:"+name, "%s after Close does not return: blocked in %q", name, th.BlockedWhy())
 	}
+	if !sys.cp.rtcpW || sys.wBound {
+		// everything the interceptor needs is bound, it is open, three timer intervals have passed and nothing
+		// can release the call any more: the caller is stranded (it may be the very goroutine that would call Close)
+		return false, fail("C11:traffic-call-stranded:"+name+":"+th.BlockedWhy(), "%s on an open interceptor with its RTCP writer bound does not return: blocked in %q with no goroutine or timer able to release it", name, th.BlockedWhy())
+	}
 	sys.pending = append(sys.pending, pendingOp{name, th, life})
 	return false, nil
 }
@@ -489,7 +494,7 @@ func init() {
 		Rule: "E2 explicit-state search: for every interceptor of the library, all sequences up to the depth of BindRTCPWriter, BindRTCPReader, ReadRTCP, toggle-RTCP-writer-failure, Tick, Close, and per stream s in {1 (everything negotiated), 2 (nothing negotiated)} Bind/Unbind/Write (local) and Bind/Unbind/Read (remote), restricted to the calls the interceptor implements; " +
 			"every call runs on its own application thread so that a call that never returns is observed (after three timer intervals) instead of hanging the checker; a transition is non-trivial if it is Close, an Unbind or a Tick; states distinct by deep hash of the interceptor + session flags + clock",
 		Assumptions: []string{"vsched model (litmus suite)", "a second Close is not issued (io.Closer leaves it undefined and the property does not mention it)",
-			"a traffic call issued before BindRTCPWriter/Close may stay blocked until Close (DESIGN.md section 5); lifecycle calls may not",
+			"a traffic call issued before BindRTCPWriter may stay blocked until the writer is bound or Close (DESIGN.md section 5); lifecycle calls may not, and neither may a traffic call once the writer is bound",
 			"the first timer interval after an Unbind may still carry the report that was in flight"},
 		Jobs: func(tier string) []string {
 			var n []string
